@@ -55,6 +55,9 @@ AfterInstr(st, kind, v) ==
      [] kind = "wie"  -> [base EXCEPT !.ie = v]
      [] OTHER         -> base
 
-\* EI directly followed by HALT is not covered by the statement
-HaltAfterEiIsFree(st, kind) == kind = "halt" /\ st.eiDelay
+\* EI directly followed by HALT *with a request already pending* is not covered by the statement (is it the halt bug,
+\* since the master enable is still clear when HALT executes, or a dispatch, since it is set right after?).
+\* With nothing pending there is no such question: the enable takes effect after HALT, the CPU idles with it set and
+\* the first enabled request is dispatched.
+HaltAfterEiIsFree(st, kind) == kind = "halt" /\ st.eiDelay /\ Pending(st) # {}
 =============================================================================
